@@ -25,6 +25,16 @@ pub enum Stdin {
     Dir,
 }
 
+#[derive(Clone, Copy, Debug, PartialEq, Eq)]
+pub enum Stdout {
+    /// captured through a pipe (default)
+    Capture,
+    /// every write fails with ENOSPC (/dev/full)
+    DevFull,
+    /// a pipe whose read end is already closed: every write fails with EPIPE
+    ClosedPipe,
+}
+
 #[derive(Clone, Debug)]
 pub struct Spec {
     pub exe: PathBuf,
@@ -37,6 +47,7 @@ pub struct Spec {
     /// RLIMIT_AS for the child, bytes (an allocation failure then aborts the child quickly
     /// instead of exhausting the machine)
     pub mem_limit: Option<u64>,
+    pub stdout: Stdout,
 }
 
 #[derive(Clone, Debug, PartialEq, Eq)]
@@ -108,7 +119,29 @@ pub fn run(spec: &Spec) -> Outcome {
         c.env(k, v);
     }
     c.current_dir(&spec.cwd);
-    c.stdout(Stdio::piped());
+    match spec.stdout {
+        Stdout::Capture => {
+            c.stdout(Stdio::piped());
+        }
+        Stdout::DevFull => match std::fs::OpenOptions::new().write(true).open("/dev/full") {
+            Ok(f) => {
+                c.stdout(Stdio::from(f));
+            }
+            Err(_) => {
+                c.stdout(Stdio::null());
+            }
+        },
+        Stdout::ClosedPipe => unsafe {
+            use std::os::unix::io::FromRawFd;
+            let mut fds = [0i32; 2];
+            if libc::pipe2(fds.as_mut_ptr(), libc::O_CLOEXEC) == 0 {
+                libc::close(fds[0]);
+                c.stdout(Stdio::from_raw_fd(fds[1]));
+            } else {
+                c.stdout(Stdio::null());
+            }
+        },
+    }
     c.stderr(Stdio::piped());
     match &spec.stdin {
         Stdin::Null => {
@@ -169,11 +202,13 @@ pub fn run(spec: &Spec) -> Outcome {
     let pid = child.id();
     watch().lock().unwrap().insert(pid, t0);
 
-    let mut so = child.stdout.take().unwrap();
+    let so = child.stdout.take();
     let mut se = child.stderr.take().unwrap();
     let t_out = std::thread::spawn(move || {
         let mut b = Vec::new();
-        let _ = so.read_to_end(&mut b);
+        if let Some(mut so) = so {
+            let _ = so.read_to_end(&mut b);
+        }
         b
     });
     let t_err = std::thread::spawn(move || {
